@@ -9,6 +9,7 @@
 -/
 import PestModel.Lemmas.OptSoundSim
 import PestModel.Lemmas.Refine
+import PestModel.OptHyps
 
 set_option linter.unusedVariables false
 
@@ -19,28 +20,6 @@ open L0
 
 /-! ### well-formedness of nodes -/
 
-/-- name and modifier of the rule a name refers to -/
-def sigOf (G : Grammar) (n : String) : Option (String × Nat) := (G.lookup n).map fun r => (r.name, r.mod)
-
-/-- the context of a node: the signature of the rule table, and whether the rule whose body the
-    node belongs to is atomic whatever its caller (`@`, `$`, a trivia rule) -/
-structure Cx where
-  sig : String → Option (String × Nat)
-  fa : Bool
-
-/-- the body of this rule runs with implicit trivia off, whoever calls it -/
-def forced (r : Rule) : Bool := ruleAtomic r.name r.mod false
-
-theorem forced_all {n : String} {m : Nat} (h : ruleAtomic n m false = true) (b : Bool) :
-    ruleAtomic n m b = true := by
-  unfold ruleAtomic at h ⊢
-  by_cases h1 : (hasBit m ATOMIC || hasBit m COMPOUND || L1.isTriviaName n) = true
-  · simp [h1]
-  · simp only [h1, Bool.false_eq_true, ↓reduceIte] at h
-    by_cases h2 : hasBit m NONATOMIC = true
-    · simp [h2] at h
-    · simp [h2] at h
-
 /-- the body of an embedded rule object is not itself a rule object or a reference -/
 def rootOK : Expr → Prop
   | .rule _ _ _ _ => False
@@ -50,20 +29,20 @@ def rootOK : Expr → Prop
 /-- node-local well-formedness, relative to the signature `sg` of the rule table.
     Embedded rule nodes are the built-in objects: they are silent (except `EOI`) and never atomic /
     non-atomic, their body is not directly another rule object or a reference; `ANY`'s body is
-    `_Any`; a Unicode property rule carries its own name.  References: never to `ANY` / `SKIP` by name; an untagged reference
-    to a silent rule is a reference to a rule that does not switch atomicity there (so not to a
-    silent `WHITESPACE` / `COMMENT`, unless the referring rule is itself atomic: `sg.fa`).  A `Choice` has at least one alternative.  A range is not reversed
-    (`Range.__init__` compiles `[a-b]`, which raises for `a > b`).  An `OptimizedChoice` (only the
-    optimizer makes them) is not empty and not the repeating kind (that one is the body of `SKIP`). -/
-def NodeOK (sg : Cx) : Expr → Prop
+    `_Any`; a Unicode property rule carries its own name.  References: never to `ANY` by name (the
+    front end embeds the built-in object); a reference to a silent rule is a reference to a rule
+    whose modifier is `_` alone (the front end gives a rule one modifier; the fused `SKIP`, silent
+    *and* atomic, is therefore never referenced).  A `Choice` has at least one alternative.  A
+    range is not reversed (`Range.__init__` compiles `[a-b]`, which raises for `a > b`).  An
+    `OptimizedChoice` (only the optimizer makes them) is not empty and not the repeating kind
+    (that one is the body of `SKIP`). -/
+def NodeOK (sg : String → Option (String × Nat)) : Expr → Prop
   | .rule n m sm b =>
     rootOK b ∧ hasBit m ATOMIC = false ∧ hasBit m COMPOUND = false ∧ hasBit m NONATOMIC = false ∧
     L1.isTriviaName n = false ∧ (n ≠ "EOI" → hasBit m SILENT = true) ∧ (n = "EOI" → b = .eoiB) ∧
     (∀ pn, b = .uprop pn → pn = n) ∧ (n = "ANY" → b = .anyB)
   | .ident n t =>
-    n ≠ "ANY" ∧ n ≠ "SKIP" ∧
-    (t = none → ∀ nm md, sg.sig n = some (nm, md) → hasBit md SILENT = true →
-      ∀ a, (sg.fa = true → a = true) → ruleAtomic nm md a = a)
+    n ≠ "ANY" ∧ (∀ nm md, sg n = some (nm, md) → hasBit md SILENT = true → plainSilent md)
   | .choice es => es ≠ []
   | .range a b => a ≤ b
   | .optChoice alts star => star = false ∧ alts ≠ [] ∧ ∀ a ∈ alts, AltOK a
@@ -82,19 +61,7 @@ theorem AllNL.transfer {P Q : Expr → Prop} {es es' : List Expr} (hl : es.lengt
     AllNL Q es' :=
   AllNL.of_index fun i hi => f i (by omega) hi (AllNL.index h i (by omega))
 
-variable {F : Feat} {G : Grammar} {sg : Cx}
-
-theorem NodeOK.mono {s : String → Option (String × Nat)} {fa fa' : Bool} {x : Expr}
-    (h : NodeOK ⟨s, fa⟩ x) (hle' : fa = true → fa' = true) :
-    NodeOK ⟨s, fa'⟩ x := by
-  cases x with
-  | ident n t =>
-    simp only [NodeOK] at h ⊢
-    refine ⟨h.1, h.2.1, fun ht nm md hs hsil a ha => ?_⟩
-    by_cases hf : fa = true
-    · exact h.2.2 ht nm md hs hsil a (fun _ => ha (hle' hf))
-    · exact h.2.2 ht nm md hs hsil a (fun hx => absurd hx hf)
-  | _ => exact h
+variable {F : Feat} {G : Grammar} {sg : String → Option (String × Nat)}
 
 /-- what a rewrite can do to the body of an embedded rule object -/
 theorem TR.root_facts {a : Bool} {b b' : Expr} (h : TR F G a b b') (hr : rootOK b) :
@@ -114,8 +81,8 @@ theorem TR.root_facts {a : Bool} {b b' : Expr} (h : TR F G a b b') (hr : rootOK 
 
 /-- rewriting preserves node well-formedness -/
 theorem TR.allN {a : Bool} {e e' : Expr} (h : TR F G a e e')
-    (hsig : ∀ n, sigOf G n = sg.sig n)
-    (hG : ∀ n r, n ≠ "SKIP" → G.lookup n = some r → AllN (NodeOK ⟨sg.sig, forced r⟩) r.body) :
+    (hsig : ∀ n, sigOf G n = sg n)
+    (hG : ∀ n r, G.lookup n = some r → hasBit r.mod ATOMIC = false → AllN (NodeOK sg) r.body) :
     AllN (NodeOK sg) e → AllN (NodeOK sg) e' := by
   induction h with
   | term _ => exact id
@@ -184,20 +151,10 @@ theorem TR.allN {a : Bool} {e e' : Expr} (h : TR F G a e e')
   | @inlS n r b' hl hsil _ _ ih =>
     intro h
     apply ih
-    have hbody := hG _ _ h.2.1 hl
-    have hsg : sg.sig n = some (r.name, r.mod) := by
+    have hsg : sg n = some (r.name, r.mod) := by
       rw [← hsig n]; simp only [sigOf, hl, Option.map_some]
-    have hcl := (h : NodeOK sg (.ident n none)).2.2 rfl _ _ hsg hsil
-    cases hfa : sg.fa with
-    | false =>
-      have hf : forced r = false := hcl false (by rw [hfa]; intro hx; cases hx)
-      rw [hf] at hbody
-      have : sg = ⟨sg.sig, false⟩ := by cases sg; simp_all
-      rw [this]; exact hbody
-    | true =>
-      have : sg = ⟨sg.sig, true⟩ := by cases sg; simp_all
-      rw [this]
-      exact AllN.imp (fun x hx => NodeOK.mono hx (fun _ => rfl)) hbody
+    have hpl := (h : NodeOK sg (.ident n none)).2 _ _ hsg hsil
+    exact hG _ _ hl hpl.2.1
   | squash _ _ _ hpat _ =>
     intro _
     obtain ⟨k, hk, hne, _, hall⟩ := hpat
@@ -401,24 +358,16 @@ theorem topDown_TR (f : Expr → Expr) (a : Bool) (I : Expr → Prop)
 
 /-! ### the invariant of the rule table -/
 
-/-- what `skip` needs of the operand of a negative predicate: `_skip`'s walk from it never meets
-    a `Repeat` or a `SkipUntil` (see the finding on `!x` with `x` itself rewritten by `skip`) -/
-def NotPOK (G : Grammar) : Expr → Prop
-  | .notP x => regG G 100 x = true
-  | _ => True
-
 structure Inv (F : Feat) (sg : String → Option (String × Nat)) (G : Grammar) : Prop where
   sig : ∀ n, sigOf G n = sg n
-  /-- every body is well-formed; the fused rule of the WHITESPACE case is the one exception -/
-  nodes : ∀ r ∈ G.rules, AllN (NodeOK ⟨sg, forced r⟩) r.body ∨
-    (r.name = "SKIP" ∧ ∃ alts, r.body = .optChoice alts true)
-  /-- a rule called `SKIP` is the fused trivia rule -/
-  skipMod : ∀ r ∈ G.rules, r.name = "SKIP" → hasBit r.mod ATOMIC = true
+  /-- every body is well-formed; the fused rule of the WHITESPACE case (an atomic rule whose body is
+      an `OptimizedChoiceRepeat` leaf) is the one exception -/
+  nodes : ∀ r ∈ G.rules, AllN (NodeOK sg) r.body ∨
+    (hasBit r.mod ATOMIC = true ∧ ∃ alts, r.body = .optChoice alts true)
   /-- the fused trivia rule exists only where a trivia rule is defined -/
   fusedTrivia : G.fusedSkip ≠ none → ¬(G.lookup "WHITESPACE" = none ∧ G.lookup "COMMENT" = none)
   /-- the fused trivia rule cannot fail -/
   total : ∀ r, G.fusedSkip = some r → totalBody r.body = true
-  notp : F.skip = true → ∀ r ∈ G.rules, AllN (NotPOK G) r.body
 
 theorem lookup_mem {G : Grammar} {n : String} {r : Rule} (h : G.lookup n = some r) : r ∈ G.rules :=
   List.mem_of_find?_eq_some h
@@ -427,11 +376,11 @@ theorem lookup_name {G : Grammar} {n : String} {r : Rule} (h : G.lookup n = some
   have := List.find?_some h
   simpa using this
 
-theorem Inv.lookup_nodes {sg : String → Option (String × Nat)} (h : Inv F sg G) (n : String) (r : Rule)
-    (hn : n ≠ "SKIP") (hl : G.lookup n = some r) : AllN (NodeOK ⟨sg, forced r⟩) r.body := by
+theorem Inv.lookup_nodes (h : Inv F sg G) (n : String) (r : Rule) (hl : G.lookup n = some r)
+    (ha : hasBit r.mod ATOMIC = false) : AllN (NodeOK sg) r.body := by
   rcases h.nodes r (lookup_mem hl) with h1 | ⟨h1, _⟩
   · exact h1
-  · rw [lookup_name hl] at h1; exact absurd h1 hn
+  · rw [ha] at h1; exact absurd h1 (by simp)
 
 /-! ### unroll -/
 
@@ -468,7 +417,7 @@ theorem unroll_TR (a : Bool) (e : Expr) (he : AllN (NodeOK sg) e) :
 
 /-! ### inline_silent_rules -/
 
-theorem inlineSilent_root (hsig : ∀ n, sigOf G n = sg.sig n) {a : Bool} (hfa : sg.fa = true → a = true)
+theorem inlineSilent_root (hsig : ∀ n, sigOf G n = sg n) {a : Bool}
     {e x : Expr} (he : AllN (NodeOK sg) e)
     (h : Cong1 a (TR F G a) e x) :
     TR F G a e ((Opt.inlineSilent G.rules x).getD (.ident "!KeyError" none)) := by
@@ -478,18 +427,21 @@ theorem inlineSilent_root (hsig : ∀ n, sigOf G n = sg.sig n) {a : Bool} (hfa :
     cases hl : G.rules.find? (·.name == n) with
     | none => exact .ident
     | some r =>
-      simp only []
-      by_cases hc : (hasBit r.mod SILENT && t.isNone) = true
-      · simp only [hc, ↓reduceIte, Option.getD_some]
-        simp only [Bool.and_eq_true, Option.isNone_iff_eq_none] at hc
-        obtain ⟨hs, ht⟩ := hc
+      dsimp only
+      by_cases hc : (hasBit r.mod SILENT && t.isNone && !(r.name == "WHITESPACE" || r.name == "COMMENT")) = true
+      · rw [if_pos hc]
+        simp only [Bool.and_eq_true, Option.isNone_iff_eq_none, Bool.not_eq_true', Bool.or_eq_false_iff,
+          beq_eq_false_iff_ne] at hc
+        obtain ⟨⟨hs, ht⟩, hw, hcm⟩ := hc
         subst ht
         have hn := he.root
         simp only [NodeOK] at hn
-        have hsg : sg.sig n = some (r.name, r.mod) := by
+        have hsg : sg n = some (r.name, r.mod) := by
           rw [← hsig n]; simp only [sigOf, Grammar.lookup, hl, Option.map_some]
-        exact .inlS hl hs (hn.2.2 trivial _ _ hsg hs a hfa) (TR.refl F G _ _)
-      · simp only [hc, Bool.false_eq_true, ↓reduceIte, Option.getD_some]
+        have htriv : L1.isTriviaName r.name = false := by
+          simp [L1.isTriviaName, hw, hcm]
+        exact .inlS hl hs (plain_ruleAtomic (hn.2 _ _ hsg hs) htriv a) (TR.refl F G _ _)
+      · rw [if_neg hc]
         exact .ident
   | term ht => cases e <;> simp [isTerm] at ht <;> exact .term rfl
   | rule => exact .rule
@@ -508,10 +460,10 @@ theorem inlineSilent_root (hsig : ∀ n, sigOf G n = sg.sig n) {a : Bool} (hfa :
   | group h => exact .group h
   | push h => exact .push h
 
-theorem inlineSilent_TR (hsig : ∀ n, sigOf G n = sg.sig n) (a : Bool) (hfa : sg.fa = true → a = true)
+theorem inlineSilent_TR (hsig : ∀ n, sigOf G n = sg n) (a : Bool)
     (e : Expr) (he : AllN (NodeOK sg) e) :
     TR F G a e (Opt.mapBottomUp (fun x => (Opt.inlineSilent G.rules x).getD (.ident "!KeyError" none)) e) :=
-  bottomUp_TR _ a (fun _ _ he h => inlineSilent_root hsig hfa he h) e he
+  bottomUp_TR _ a (fun _ _ he h => inlineSilent_root hsig he h) e he
 
 /-! ### inline_builtin -/
 
